@@ -77,6 +77,7 @@ var (
 )
 
 // stateOf is the k-th value of the deterministic state function handed to AuthURLHandler.
+// (The state of attempt k, world.stateK(k), is what the state cookie of start k carries.)
 // It contains characters that need escaping in a URL so that "the authorization URL carries
 // that state" is decided on decoded values.
 func stateOf(k int) string { return fmt.Sprintf("St-%d aB+c&d=e%%2F", k) }
@@ -109,6 +110,8 @@ type cfg struct {
 	jwt       string // "" or key fixture name for WithJWTProfile
 	enc       bool   // cookie handler with an encryption key
 	noCookie  bool   // RP without cookie handler: property does not apply (Either)
+	params    bool   // custom URL parameters on both handlers (prompt, audience)
+	ckOpts    bool   // cookie handler with WithUnsecure, WithMaxAge, WithSameSite, WithDomain
 	maxStarts int
 	depth     int
 	pair      bool // state-cookie manipulation x pkce-cookie manipulation (full product) instead of one manipulation
@@ -251,7 +254,7 @@ func (p *cfg) ops(s S) []string {
 			for _, m := range ms {
 				for _, sc := range scs {
 					for _, pc := range pcs {
-						if sc != "asis" && pc != "asis" && (!p.pair || sc == "swap") {
+						if sc != "asis" && pc != "asis" && (!p.pair || sc == "swap" || m == "post") {
 							continue // one jar manipulation per callback
 						}
 						ops = append(ops, cbOp{qs, k, sc, pc, "ok", m}.String())
@@ -363,6 +366,8 @@ type world struct {
 	stateCk  []string // state cookie value minted by start k (index k-1)
 	pkceCk   []string
 	chall    []string // code_challenge in the Location of start k
+	states   []string // state of attempt k = content of the state cookie start k handed out
+	fnOut    []string // values the state function returned during the current request
 	consumed int
 	// observations of the current request
 	cbs    []cbCall
@@ -386,7 +391,12 @@ func newWorld(p *cfg) (*world, error) {
 		}),
 	}
 	if !p.noCookie {
-		ch := httphelper.NewCookieHandler(p.hashKey(), p.blockKey())
+		var ckOpts []httphelper.CookieHandlerOpt
+		if p.ckOpts {
+			ckOpts = []httphelper.CookieHandlerOpt{httphelper.WithUnsecure(), httphelper.WithMaxAge(600),
+				httphelper.WithSameSite(http.SameSiteStrictMode), httphelper.WithDomain("rp.example")}
+		}
+		ch := httphelper.NewCookieHandler(p.hashKey(), p.blockKey(), ckOpts...)
 		if p.pkce {
 			opts = append(opts, rp.WithPKCE(ch))
 		} else {
@@ -410,7 +420,15 @@ func newWorld(p *cfg) (*world, error) {
 		return nil, err
 	}
 	w.prov.log, w.prov.nTok = nil, 0 // discovery is not part of any operation
-	w.startH = rp.AuthURLHandler(func() string { w.ctr++; return stateOf(w.ctr) }, w.party)
+	var urlParams []rp.URLParamOpt
+	if p.params {
+		urlParams = []rp.URLParamOpt{rp.WithPromptURLParam("login", "consent"), rp.WithURLParam("audience", "https://api.example")}
+	}
+	w.startH = rp.AuthURLHandler(func() string {
+		w.ctr++
+		w.fnOut = append(w.fnOut, stateOf(w.ctr))
+		return stateOf(w.ctr)
+	}, w.party, urlParams...)
 	w.cbH = rp.CodeExchangeHandler(func(rw http.ResponseWriter, r *http.Request, tokens *oidc.Tokens[*oidc.IDTokenClaims], state string, _ rp.RelyingParty) {
 		c := cbCall{state: state, nilTok: tokens == nil || tokens.Token == nil}
 		if !c.nilTok {
@@ -418,7 +436,7 @@ func newWorld(p *cfg) (*world, error) {
 		}
 		w.cbs = append(w.cbs, c)
 		rw.WriteHeader(http.StatusOK)
-	}, w.party)
+	}, w.party, urlParams...)
 	return w, nil
 }
 
@@ -441,7 +459,7 @@ func (w *world) serve(h http.Handler, method, target string, body url.Values, co
 		req.Header.Set("Cookie", strings.Join(parts, "; "))
 	}
 	rec := httptest.NewRecorder()
-	w.cbs, w.unauth, w.errh = nil, nil, nil
+	w.cbs, w.unauth, w.errh, w.fnOut = nil, nil, nil, nil
 	w.prov.log, w.prov.nTok = nil, 0
 	pan := engine.Safe(func() { h.ServeHTTP(rec, req) })
 	return rec, pan
@@ -497,9 +515,16 @@ func (w *world) summary(hist []string, last string) S {
 }
 
 // refDecode is the reference reading of a cookie value: gorilla/securecookie under the given keys and name.
+// ("signed cookie": a handler that signs without encrypting still satisfies the statement.)
 func refDecode(hash, block []byte, name, value string) (string, error) {
 	var out string
 	err := securecookie.New(hash, block).Decode(name, value, &out)
+	if err != nil && block != nil {
+		var plain string
+		if securecookie.New(hash, nil).Decode(name, value, &plain) == nil {
+			return plain, nil
+		}
+	}
 	return out, err
 }
 
@@ -515,8 +540,6 @@ func mint(hash, block []byte, name, value string) string {
 // start()
 
 func (w *world) start(judge bool) (engine.Result, string) {
-	k := len(w.stateCk) + 1
-	before := w.ctr
 	rec, pan := w.serve(w.startH, "GET", loginURL, nil, w.jarCookies())
 	cs := w.absorb(rec)
 	var sc, pc string
@@ -532,6 +555,16 @@ func (w *world) start(judge bool) (engine.Result, string) {
 	}
 	w.stateCk = append(w.stateCk, sc)
 	w.pkceCk = append(w.pkceCk, pc)
+	// the state of this attempt is the one the browser received in the signed cookie
+	st, stErr := "", error(nil)
+	if w.p.noCookie || sc == "" {
+		if len(w.fnOut) > 0 {
+			st = w.fnOut[len(w.fnOut)-1]
+		}
+	} else if st, stErr = refDecode(w.p.hashKey(), w.p.blockKey(), "state", sc); stErr != nil && len(w.fnOut) > 0 {
+		st = w.fnOut[len(w.fnOut)-1]
+	}
+	w.states = append(w.states, st)
 	loc, _ := url.Parse(rec.Header().Get("Location"))
 	var q url.Values
 	if loc != nil {
@@ -551,14 +584,14 @@ func (w *world) start(judge bool) (engine.Result, string) {
 	if rec.Code != http.StatusFound || loc == nil || len(w.unauth) > 0 {
 		return bad("start-refused", "no-redirect", fmt.Sprintf("status %d unauthorized=%v", rec.Code, w.unauth))
 	}
-	if w.ctr != before+1 {
-		return engine.Result{Rule: "internal", Outcome: "state-fn-calls"}, "start"
+	if len(w.fnOut) == 0 {
+		return bad("authurl", "state", "the state function was not called")
 	}
 	if got := loc.Scheme + "://" + loc.Host + loc.Path; got != authURL {
 		return bad("authurl", "endpoint", got)
 	}
 	want := map[string]string{"client_id": clientID, "redirect_uri": redirectURI, "scope": strings.Join(scopes, " "),
-		"state": stateOf(k), "response_type": "code"}
+		"state": st, "response_type": "code"}
 	for _, name := range []string{"client_id", "redirect_uri", "scope", "state", "response_type"} {
 		if len(q[name]) != 1 || q.Get(name) != want[name] {
 			return bad("authurl", name, fmt.Sprintf("%s=%q want %q", name, q[name], want[name]))
@@ -574,8 +607,8 @@ func (w *world) start(judge bool) (engine.Result, string) {
 	if sc == "" {
 		return bad("start-cookie", "state-missing", "no state cookie set")
 	}
-	if v, err := refDecode(w.p.hashKey(), w.p.blockKey(), "state", sc); err != nil || v != stateOf(k) {
-		return bad("start-cookie", "state-content", fmt.Sprintf("decodes to %q err=%v", v, err))
+	if stErr != nil || !slices.Contains(w.fnOut, st) {
+		return bad("start-cookie", "state-content", fmt.Sprintf("decodes to %q err=%v, state function returned %q", st, stErr, w.fnOut))
 	}
 	if !w.p.pkce {
 		return engine.OK(rule, "redirect+state-cookie"), "start"
@@ -626,14 +659,14 @@ func (w *world) callback(o cbOp, judge bool) (engine.Result, string) {
 	case o.qs == "bogus":
 		qstate = "never-issued-state"
 	case o.qs == "case":
-		qstate = flipCase(stateOf(base))
+		qstate = flipCase(w.stateK(base))
 	case o.qs == "pre":
-		qstate = stateOf(base)[:len(stateOf(base))-1]
+		qstate = w.stateK(base)[:len(w.stateK(base))-1]
 	case o.qs == "suf":
-		qstate = stateOf(base) + "x"
+		qstate = w.stateK(base) + "x"
 	case strings.HasPrefix(o.qs, "s"):
 		k, _ := strconv.Atoi(o.qs[1:])
-		qstate = stateOf(k)
+		qstate = w.stateK(k)
 	}
 	q := url.Values{}
 	if hasState {
@@ -653,7 +686,7 @@ func (w *world) callback(o cbOp, judge bool) (engine.Result, string) {
 	// --- jar as presented
 	forgedState := qstate
 	if !hasState {
-		forgedState = stateOf(max(base, 1))
+		forgedState = w.stateK(max(base, 1))
 	}
 	held, hasHeld := w.jar["state"]
 	heldP, hasHeldP := w.jar["pkce"]
@@ -755,7 +788,7 @@ func (w *world) callback(o cbOp, judge bool) (engine.Result, string) {
 	default:
 		outcome = "silent"
 	}
-	match := sProv.k > 0 && hasState && qstate == stateOf(sProv.k)
+	match := sProv.k > 0 && hasState && qstate == w.stateK(sProv.k)
 	last := "rej"
 	switch {
 	case accepted && match:
@@ -775,6 +808,14 @@ func (w *world) callback(o cbOp, judge bool) (engine.Result, string) {
 	}
 	res := w.judgeCallback(o, sProv, pProv, match, qstate, code, outcome, pan, tok)
 	return res, last
+}
+
+// stateK is the state of attempt k (1-based); a never-started attempt has the state the function would give.
+func (w *world) stateK(k int) string {
+	if k >= 1 && k <= len(w.states) && w.states[k-1] != "" {
+		return w.states[k-1]
+	}
+	return stateOf(k)
 }
 
 func flipAt(s string, i int) string {
@@ -873,7 +914,7 @@ func (w *world) judgeCallback(o cbOp, sProv, pProv prov, match bool, qstate, cod
 		}
 	}
 	if accepted {
-		if len(w.cbs) != 1 || w.cbs[0].state != stateOf(sProv.k) {
+		if len(w.cbs) != 1 || w.cbs[0].state != w.stateK(sProv.k) {
 			return engine.Bad("match/callback-args", outcome, "C17/callback-args/callback/state", detail())
 		}
 	}
@@ -1053,11 +1094,11 @@ func TestCheck(t *testing.T) {
 			add(strings.Replace(name, "oauth", "oidc", 1), func(p *cfg) { p.oidc, p.pkce, p.jwt, p.pair = true, pk, jw, c.Thorough() || jw != "" })
 		}
 	}
-	add("oauth-pkce-signonly", func(p *cfg) { p.pkce, p.enc, p.pair = true, false, c.Thorough() })
+	add("oauth-pkce-signonly-ckopts", func(p *cfg) { p.pkce, p.enc, p.ckOpts, p.pair = true, false, true, c.Thorough() })
 	add("oidc-signonly", func(p *cfg) { p.oidc, p.enc = true, false })
+	add("oidc-pkce-urlparams", func(p *cfg) { p.oidc, p.pkce, p.params, p.pair = true, true, true, c.Thorough() })
 	if c.Thorough() {
 		add("oidc-pkce-jwt-rsa", func(p *cfg) { p.oidc, p.pkce, p.jwt = true, true, "rsa_pkcs1" })
-		add("oidc-pkce-jwt-signonly", func(p *cfg) { p.oidc, p.pkce, p.jwt, p.enc = true, true, "p256c", false })
 	}
 	add("oauth-nocookiehandler", func(p *cfg) { p.noCookie, p.maxStarts, p.depth, p.rich, p.pair = true, 2, 3, false, false })
 	for _, p := range parts {
